@@ -4,8 +4,9 @@ import Hive.Gen.C07_Skel
 # C07 — sequence numbers are never reused across crashes and restarts
 
 Property theorems only.  Model: `Hive/Model/Seq.lean` (kvstore/sequence.go, with the repaired
-`Release`).  Histories range over `new i` (restart with any positive interval), `next`, `release`
-and `crash` at every store-operation boundary.
+`Release`).  Histories range over `new i` (restart with any positive interval), `next`, `release`,
+`crash` at every store-operation boundary, and `failNext get|set` / `failRelease` (the store read or
+write of that call returns an I/O error, the call reports it, the object stays in use).
 -/
 namespace Hive.Seq
 
@@ -38,6 +39,14 @@ theorem step_returned (s : St) (op : Op) :
     | none => simp [step, hobj, nums]
     | some o =>
       cases hl : hasLease o <;> cases pt <;> simp [step, hobj, hl, nums, abandon_returned]
+  | failNext f =>
+    cases hobj : s.obj with
+    | none => simp [step, hobj, nums]
+    | some o => cases hl : hasLease o <;> cases f <;> simp [step, hobj, hl, nums]
+  | failRelease =>
+    cases hobj : s.obj with
+    | none => simp [step, hobj, nums]
+    | some o => cases hl : hasLease o <;> simp [step, hobj, hl, nums]
 
 theorem nums_append (a b : List Out) : nums (a ++ b) = nums a ++ nums b := by
   induction a with
@@ -138,6 +147,16 @@ theorem C07_budget_step (s : St) (op : Op) :
       right
       refine ⟨o, rfl, ?_, ?_⟩ <;>
         cases hl : hasLease o <;> cases pt <;> simp [step, hobj, hl, abandon]
+  | failNext f =>
+    left
+    cases hobj : s.obj with
+    | none => simp [step, hobj]
+    | some o => cases hl : hasLease o <;> cases f <;> simp [step, hobj, hl]
+  | failRelease =>
+    left
+    cases hobj : s.obj with
+    | none => simp [step, hobj]
+    | some o => cases hl : hasLease o <;> simp [step, hobj, hl]
 
 /-- Witness that the unrepaired `Release` (which wrote `next` unconditionally) reused numbers:
 kept as a regression statement about the *model of the old code*. -/
@@ -171,6 +190,20 @@ open Hive.Gen.C07Skel in
 theorem C07_skeleton_update : skel_Sequence_update =
     ["call seq.store.Get", "switch{", "case", "case", "return", "case", "}switch", "call seq.store.Set", "if{",
       "return", "}if", "return"] := by decide
+
+/-- A failed store call never wastes or reuses anything: the frontier is unchanged and an error (or,
+when the call needs no store access, its normal answer) is returned. -/
+theorem C07_store_error_harmless (s : St) (o : Obj) (h : Inv s) (hobj : s.obj = some o) (hl : hasLease o = false)
+    (f : FailAt) :
+    (step s (.failNext f)).2 = .err ∧ frontier (step s (.failNext f)).1 = frontier s ∧
+      mark (step s (.failNext f)).1 = mark s ∧ (step s (.failNext f)).1.returned = s.returned := by
+  have hres := h.res_le o hobj
+  cases f with
+  | get => simp [step, hobj, hl, frontier]
+  | set =>
+    have hnl : hasLease { o with next := mark s } = false := by
+      simp only [hasLease, decide_eq_false_iff_not]; omega
+    simp [step, hobj, hl, frontier, hnl, mark]
 
 /-- Non-vacuity: a history exercising restart, lease, release and all crash points, with its
 outputs. -/
